@@ -137,6 +137,7 @@ func readRecordHeaderV4(reader *checksumByteReader) (payloadSizeUncompressed uin
 		return 0, 0, false, err
 	}
 
+	checksumStart := reader.Count()
 	expectedChecksum, err := binary.ReadUvarint(reader)
 	if err != nil {
 		return 0, 0, false, err
@@ -145,6 +146,14 @@ func readRecordHeaderV4(reader *checksumByteReader) (payloadSizeUncompressed uin
 	if actualChecksum != expectedChecksum {
 		return 0, 0, false,
 			fmt.Errorf("%w: expected [%x], but found [%x]", HeaderChecksumMismatchErr, expectedChecksum, actualChecksum)
+	}
+
+	// The checksum does not protect its own encoding: a continuation bit on its last byte followed by a zero byte decodes to
+	// the same value, but makes the header one byte longer and shifts the payload. Only the minimal encoding is valid.
+	var minimalEncoding [binary.MaxVarintLen64]byte
+	if reader.Count()-checksumStart != binary.PutUvarint(minimalEncoding[:], expectedChecksum) {
+		return 0, 0, false,
+			fmt.Errorf("%w: checksum [%x] is not minimally encoded", HeaderChecksumMismatchErr, expectedChecksum)
 	}
 
 	return payloadSizeUncompressed, payloadSizeCompressed, recordNil == 1, nil
